@@ -120,6 +120,12 @@ def judge(scn, res, path):
     """Compare one executed scenario with TLC's expectations.
     Returns (violations [(finding-id-suffix, text)], machinery problems [text])."""
     viol, mach = [], []
+    if res.get("fatal"):
+        # synthesized by vlib.WorkerPool: the process died (fatal runtime error, e.g. stack overflow - nothing a recover()
+        # can catch) or did not answer in time while executing this scenario, and the crash was not in the harness's own code
+        acts = ">".join(s["a"] for s in scn["steps"])
+        viol.append((("hang-" if res.get("hang") else "fatal-") + acts, "; ".join(res.get("viol") or ["the process died"])))
+        return viol, mach
     if not res.get("ok"):
         mach.append("harness (%s path): %s" % (path, res.get("err")))
         return viol, mach
@@ -233,17 +239,57 @@ class Stats:
 
 
 def default_fid(scn, path, viol):
+    if viol[0][0].startswith(("fatal-", "hang-")):
+        return "c08-died-" + viol[0][0].split("-")[0]     # one signature: every repetition costs seconds
     return "c08-%s-%s" % (path, viol[0][0])
+
+
+FATAL_LIMIT = 3    # after this many scenarios killed the process, stop feeding (each death costs seconds)
+
+
+class _Stop(Exception):
+    """Raised from on_result to make WorkerPool.run_all return early."""
+
+
+def reset_pool(pool):
+    """After run_all was abandoned half-way the workers hold unread answers: replace them."""
+    for p in pool.procs:
+        try:
+            p.kill()
+            p.wait(timeout=10)
+        except Exception:
+            pass
+    pool.waiting, pool.hung = {}, set()
+    pool.procs = [pool._spawn(i) for i in range(pool.n)]
 
 
 def run_configs(ctx, pool, configs, cov, st, fid_of=default_fid):
     """The scenario runner: for every ValueStoreMC configuration in `configs`, TLC -> scenarios -> harness valstore
     (direct and SQL-text path) -> judge.  Adds counts to `cov` (evaluations, samples, states, transitions, scenarios,
     configs) and classes / outcomes to `st`; returns {finding id: [(scenario, path)]} of the scenarios that failed
-    (to be confirmed and reported with confirm_failing).  Used by C08 and, with mixed-outcome configurations, by C14."""
+    (to be confirmed and reported with confirm_failing).  Used by C08 and, with mixed-outcome configurations, by C14.
+
+    Never stalls: when the code under test kills the worker process (fatal error) FATAL_LIMIT times, or the feeder thread
+    ends with an error, TLC's remaining scenarios are dropped unread (TLC then finishes at its own speed), the remaining
+    configurations are skipped, the workers are replaced and cov["stopped_early"] says why; the caller confirms what
+    failed so far and must not claim exhaustiveness."""
     mach_errors = []
     failing = {}   # finding id -> [(scn, path)]
     lock = threading.Lock()
+    stop = threading.Event()
+    fatal = [0]
+
+    def died(scn, r):
+        viol, _ = judge(scn, r, "any")
+        with lock:
+            cov["evaluations"] += 1
+            fid = fid_of(scn, "any", viol)
+            failing.setdefault(fid, [])
+            if len(failing[fid]) < 3:
+                failing[fid].append((scn, "any"))
+            fatal[0] += 1
+            if fatal[0] >= FATAL_LIMIT:
+                stop.set()
 
     def handle(scn, path, r, cfgname):
         viol, mach = judge(scn, r, path)
@@ -271,14 +317,22 @@ def run_configs(ctx, pool, configs, cov, st, fid_of=default_fid):
         therr = []
 
         def gen():
-            while True:
-                o = q.get()
+            while not stop.is_set():
+                try:
+                    o = q.get(timeout=0.5)
+                except queue.Empty:
+                    continue
                 if o is None:
                     return
                 yield dict(path="both", schema=o["schema"], steps=o["steps"])
 
         def on_result(req, r):
+            if stop.is_set():
+                raise _Stop()
             scn = req
+            if r.get("fatal"):
+                died(scn, r)
+                return
             d, t = r.get("direct"), r.get("text")
             if d is None:
                 with lock:
@@ -295,20 +349,20 @@ def run_configs(ctx, pool, configs, cov, st, fid_of=default_fid):
             try:
                 pool.run_all(gen(), on_result, chunk=16)
             except Exception as e:  # noqa
-                therr.append(e)
+                if not (stop.is_set() and "_Stop" in repr(e)):
+                    therr.append(e)
 
         th = threading.Thread(target=feeder, daemon=True)
         th.start()
 
         def on_scn(kind, o):
             count[0] += 1
-            while True:
+            while not stop.is_set() and th.is_alive():     # feeder gone or stopping: drop the scenario at once
                 try:
                     q.put(o, timeout=1)
                     return
                 except queue.Full:
-                    if not th.is_alive():
-                        return
+                    pass
         res = vlib.run_tlc(ctx, "ValueStoreMC", "ValueStoreMC_gen.cfg", cfg_text=mc_cfg(c), tag=c["name"], timeout=1800,
                            on_scn=on_scn, heap="6g")
         while th.is_alive():
@@ -318,13 +372,25 @@ def run_configs(ctx, pool, configs, cov, st, fid_of=default_fid):
             except queue.Full:
                 continue
         th.join(timeout=3600)
-        if therr:
-            raise therr[0] if isinstance(therr[0], vlib.Undecided) else vlib.Undecided("harness failure: %r\n%s" % (therr[0], pool.stderr_tail()))
-        vlib.tlc_must_ok(ctx, res, "ValueStoreMC %s" % c["name"])
-        if not count[0]:
-            raise vlib.Undecided("ValueStoreMC %s emitted no scenarios" % c["name"])
-        if mach_errors:
-            raise vlib.Undecided("harness / expectation problem: %s" % mach_errors[0])
+        why = None
+        if stop.is_set():
+            why = "the code under test killed the process on %d scenarios of %s; the rest was not run" % (fatal[0], c["name"])
+        elif therr:
+            why = str(therr[0]) if isinstance(therr[0], vlib.Undecided) else "harness failure: %r\n%s" % (therr[0], pool.stderr_tail())
+        elif res.status != "ok":
+            why = "ValueStoreMC %s: TLC status=%s rc=%s\n%s" % (c["name"], res.status, res.rc, "\n".join(res.out[-40:]))
+        elif not count[0]:
+            why = "ValueStoreMC %s emitted no scenarios" % c["name"]
+        elif mach_errors:
+            why = "harness / expectation problem: %s" % mach_errors[0]
+        if why:
+            if not failing:
+                raise vlib.Undecided(why)
+            # something failed on the real code before the machinery gave up: that is confirmed and reported by the caller
+            cov["stopped_early"] = why
+            cov["exhaustive"] = False
+            reset_pool(pool)
+            return failing
         cov["states"] += res.distinct
         cov["transitions"] += res.generated
         cov["scenarios"] += count[0]
@@ -334,12 +400,16 @@ def run_configs(ctx, pool, configs, cov, st, fid_of=default_fid):
 
 
 def confirm_failing(ctx, pool, failing):
-    """Confirm failing scenarios once from scratch (full values), then report them under ctx.prop."""
+    """Confirm failing scenarios once from scratch (full values), then report them under ctx.prop.
+    A scenario that killed the process on an unknown input path ("any") is repeated on the direct path, then as SQL text."""
     for fid, lst in sorted(failing.items()):
-        for scn, path in lst[:2]:
-            got = []
-            pool.run_all([dict(path=path, schema=scn["schema"], steps=scn["steps"], full=True)], lambda qq, r: got.append(r), chunk=1)
-            viol, mach = judge(scn, got[0], path)
+        for scn, path0 in lst[:2]:
+            for path in (("direct", "text") if path0 == "any" else (path0,)):
+                got = []
+                pool.run_all([dict(path=path, schema=scn["schema"], steps=scn["steps"], full=True)], lambda qq, r: got.append(r), chunk=1)
+                viol, mach = judge(scn, got[0], path)
+                if viol and not mach:
+                    break
             if mach or not viol:
                 raise vlib.Undecided("a failing scenario did not fail again when repeated: %s" % json.dumps(scn)[:600])
             vlib.report_violation(ctx, dict(kind="valstore-replay", path=path, scenario=scn, detail=[v[1] for v in viol],
@@ -392,7 +462,9 @@ def run(ctx):
     cov["distinct_nontrivial"] = len(st.puts["ok"]) + len(st.puts["refused"])
     cov["classes_direct"] = sorted(st.cls["direct"])
     cov["classes_text"] = sorted(st.cls["text"])
-    cov["exhaustive"] = True
+    cov.setdefault("exhaustive", True)
+    if cov.get("stopped_early") and not ctx.violations and not ctx.known:
+        raise vlib.Undecided(cov["stopped_early"])
 
     # ---- vacuity (only meaningful when nothing failed: failing scenarios are not counted)
     if not ctx.violations and not ctx.known:
